@@ -208,6 +208,22 @@ def known_findings():
         return []
     return json.load(open(p)).get("findings", [])
 
+def tlc_cached(module, cfg=None, **kw):
+    """model-check a TLC-alone configuration, remembering the outcome per content hash of spec/ (the result depends on nothing else)"""
+    import hashlib, glob
+    h = hashlib.sha256()
+    for f in sorted(glob.glob(os.path.join(SPEC, "*.tla")) + glob.glob(os.path.join(SPEC, "mc", "*"))):
+        h.update(f.encode()); h.update(open(f, "rb").read())
+    key = os.path.join(BUILD, "mc-%s-%s-%s.json" % (os.path.basename(module), (cfg or "default").replace(".cfg", ""), h.hexdigest()[:16]))
+    if os.path.exists(key):
+        r = json.load(open(key)); r["cached"] = True; return r
+    r = tlc(module, cfg=cfg, **kw)
+    out = {"ok": r["ok"], "distinct": r["distinct"], "generated": r["generated"], "wall": r["wall"], "cached": False}
+    os.makedirs(BUILD, exist_ok=True)
+    for old in glob.glob(os.path.join(BUILD, "mc-%s-%s-*.json" % (os.path.basename(module), (cfg or "default").replace(".cfg", "")))): os.remove(old)
+    json.dump(out, open(key, "w"))
+    return out
+
 class Verdict:
     """Collects violations; each violation carries a 'key' string that is matched against
     known_findings.json (status 'known' suppresses exactly that key; 'fixed' suppresses nothing)."""
